@@ -549,7 +549,8 @@ def rules(ctx):
 
 EXPLANATION = (
     "R06.1: pending declarations follow scope discipline in every VisitMut method that drains them (take before the child traversal, "
-    "restore on every path after the drain). R06.2: generated statements enter user statement lists only by insertion at constant index 0. "
+    "restore on every path after the drain; what is taken out of a pending list after the traversal is moved into the output on every path "
+    "that does not know it to be empty). R06.2: generated statements enter user statement lists only by insertion at constant index 0. "
     "R06.3: after the module traversal each of the five registries is tested on every path and emitted under that test, and no function "
     "that can add to a registry is reachable after that registry's emission. R06.5: every identifier obtained from the import function / "
     "slot-temp factory is moved into the output (imports are used). R06.6: every identifier placed in a binding position (BindingIdent, "
